@@ -220,7 +220,7 @@ func (p *Pool) JoinPool(
 	numSharesDec := sdkmath.LegacyNewDecFromInt(totalShares.Amount).
 		Mul(joinValueWithoutSlippage).Quo(tvl).
 		Mul(sdkmath.LegacyOneDec().Sub(weightBreakingFee))
-	numShares = numSharesDec.RoundInt()
+	numShares = numSharesDec.TruncateInt()
 	err = p.IncreaseLiquidity(numShares, tokensIn)
 	if err != nil {
 		return sdk.NewCoins(), sdkmath.ZeroInt(), sdkmath.LegacyZeroDec(), sdkmath.LegacyZeroDec(), err
